@@ -40,12 +40,12 @@ THEOREMS = ["Hyp.Field." + t for t in (
     "c07_complete_before_raise", "c07_algorithms_agree", "c07_timsort_is_stable_sort",
     "c07_stable_sort_characterised", "c07_sort_valueError_iff", "c07_sort_ok", "c07_sort_stable",
     "c07_sort_type_irrelevant")]
-CASES = {"quick": 320, "thorough": 9000}
+CASES = {"quick": 320, "thorough": 14000}
 BUDGET_S = {"quick": 40, "thorough": 720}
-BATCH = 8
+BATCH = 4
 RULE = ("each case: an index built by a 5-80 op history over docids 0..15 + extreme ids (sizes 0..16) or "
-        "bulk-loaded with 60 / 700 / 767-769 / 800 / 1024 / 2048 / 3000 documents (thorough also 16383-16385 "
-        "and 32768), values int or str with 1..all distinct values (all-equal and many-duplicate runs), some "
+        "bulk-loaded with 60 / 700 / 767-769 / 800 / 1024 / 2048 / 3000 documents (thorough also 16383-16385, "
+        "where limit 1 crosses the 4/65536 limit-ratio), values int or str with 1..all distinct values (all-equal and many-duplicate runs), some "
         "ids known without a value; then 12-40 sorts: request = list / tuple / set / frozenset / BTrees Set / "
         "TreeSet of distinct ids in random order incl. unknown and not-indexed ids, request sizes and limits "
         "aimed at every breakpoint of fwscan_wins / nbest_ascending_wins / the reverse rule (ratios "
@@ -129,7 +129,7 @@ def pick_limit(rng, n, numdocs, rlen):
     return max(1, (9 * rlen) // 100 + rng.choice([-1, 0, 1, 2]))
 
 
-def gen_sorts(rng, current, universe, count, big):
+def gen_sorts(rng, current, universe, count, big, huge=False):
     """`current`: docid -> rank | None (known without value); `universe`: ids that may be requested"""
     sortable = [d for d, r in current.items() if r is not None]
     novalue = [d for d, r in current.items() if r is None]
@@ -140,6 +140,11 @@ def gen_sorts(rng, current, universe, count, big):
         r = rng.random()
         if not sortable or r < 0.05:
             k = rng.choice([0, 0, 1, 2, 3])
+        elif huge:
+            # the model's maps are association lists: keep requests on a 16k index below numdocs/8,
+            # except for a rare full-size one (docratio 1 / >= 1/4 is also reached on the smaller sizes)
+            kk = rng.choice(DOCK[:6] if rng.random() < 0.97 else DOCK)
+            k = min(numdocs, max(1, -(-numdocs * kk // 65536) + rng.choice([-1, 0, 0, 1])))
         elif big and r < 0.55:
             kk = rng.choice(DOCK)
             k = min(numdocs, max(1, -(-numdocs * kk // 65536) + rng.choice([-1, 0, 0, 1])))
@@ -219,7 +224,7 @@ def gen(rng, tier, idx):
         cfg.append(["cfg", "vtype", "int"])
         sizes = [60, 60, 700, 767, 768, 769, 800, 1024, 2048, 3000]
         if tier == "thorough" and rng.random() < 0.006:
-            sizes = [16383, 16384, 16385, 32768]
+            sizes = [16383, 16384, 16385]
         n = rng.choice(sizes)
         dv = rng.choice([1, 2, 7, 50, n // 4 + 1, n])      # distinct values
         base = rng.choice([0, 0, 1000, -500])
@@ -237,7 +242,7 @@ def gen(rng, tier, idx):
             cmds.append(["index", d, "none"])
             current[d] = None
         universe = list(current) + [base - 1, base - 2, base + n + 100, base + n + 101]
-        cmds += gen_sorts(rng, current, universe, rng.randrange(20, 40) if n <= 3000 else 24, True)
+        cmds += gen_sorts(rng, current, universe, rng.randrange(20, 40) if n <= 3000 else 30, True, n > 3000)
     return {"session": "fieldsort", "cfg": cfg, "cmds": cmds}
 
 
@@ -301,7 +306,7 @@ class SortImpl(object):
         try:
             res = self.idx.sort(coll, **kw)
         except Unsortable as e:
-            return "err Unsortable " + idset(e.docids)
+            return "err Unsortable " + idset(set(e.docids))
         except Exception as e:
             return exc_name(e)
         out = []
@@ -310,7 +315,7 @@ class SortImpl(object):
             for d in res:
                 out.append(d)
         except Unsortable as e:
-            return "%s [%s] Unsortable %s" % (head, " ".join(map(str, out)), idset(e.docids))
+            return "%s [%s] Unsortable %s" % (head, " ".join(map(str, out)), idset(set(e.docids)))
         except Exception as e:
             return "%s [%s] %s" % (head, " ".join(map(str, out)), exc_name(e))
         if list(coll) != order:
@@ -350,7 +355,10 @@ def parse_answer(a):
         return ("call", [], True)
     if a.startswith("gen [") or a.startswith("list ["):
         body = a[a.index("[") + 1:a.index("]")]
-        ids = [int(x) for x in body.split()]
+        try:
+            ids = [int(x) for x in body.split()]
+        except ValueError:
+            return None
         tail = a[a.index("]") + 1:].strip()
         if tail == "ok":
             return (a.split()[0], ids, False)
